@@ -245,7 +245,7 @@ theorem C13_lazy_never_no_space (cfgCap : Nat) (inp : ByteArray) (l : LSt) (h : 
 open LazyDec in
 /-- **Independence of the read sizes, unconditionally**: for EVERY input, any two schedules of buffer lengths that both
     run into `io.EOF` deliver the same bytes — the batch reader's output, which ends cleanly. -/
-theorem C13_lazy_schedule_independent' (cfgCap : Nat) (inp : ByteArray) (l : LSt) (h : newReader cfgCap inp = .ok l)
+theorem C13_lazy_schedule_independent_uncond (cfgCap : Nat) (inp : ByteArray) (l : LSt) (h : newReader cfgCap inp = .ok l)
     (lens1 lens2 : List Nat)
     (h1 : lastStat (readSeq l lens1) = .eof) (h2 : lastStat (readSeq l lens2) = .eof) :
     delivered (readSeq l lens1) = delivered (readSeq l lens2) ∧
@@ -257,7 +257,7 @@ theorem C13_lazy_schedule_independent' (cfgCap : Nat) (inp : ByteArray) (l : LSt
   exact ⟨by rw [e1.2, e2.2], e1.2, e1.1⟩
 
 open LazyDec in
-theorem C13_lazy_delivered_prefix' (cfgCap : Nat) (inp : ByteArray) (l : LSt) (h : newReader cfgCap inp = .ok l)
+theorem C13_lazy_delivered_prefix_uncond (cfgCap : Nat) (inp : ByteArray) (l : LSt) (h : newReader cfgCap inp = .ok l)
     (lens : List Nat) :
     let out := (Lzma1.read (effCap cfgCap) inp).out
     (delivered (readSeq l lens)).size ≤ out.size ∧
@@ -265,7 +265,7 @@ theorem C13_lazy_delivered_prefix' (cfgCap : Nat) (inp : ByteArray) (l : LSt) (h
   LazyDec.delivered_prefix cfgCap inp l h lens (Fuel.lzma1_read_fuel (effCap cfgCap) inp)
 
 open LazyDec in
-theorem C13_lazy_errors_agree' (cfgCap : Nat) (inp : ByteArray) (l : LSt) (h : newReader cfgCap inp = .ok l) (lens : List Nat)
+theorem C13_lazy_errors_agree_uncond (cfgCap : Nat) (inp : ByteArray) (l : LSt) (h : newReader cfgCap inp = .ok l) (lens : List Nat)
     (e : Err) (he : lastStat (readSeq l lens) = .err e) :
     (Lzma1.read (effCap cfgCap) inp).status.cls = (statusOf e).cls :=
   LazyDec.err_agrees cfgCap inp l h lens (Fuel.lzma1_read_fuel (effCap cfgCap) inp) e he
